@@ -190,6 +190,8 @@ def obligations(tier):
                 for tag, seq, mid, sk in skeletons(t, nsets, tier):
                     if nsets == 3 and (len(set(seq)) == 3 or mid is None):
                         continue
+                    if nsets == 3 and not (cfg == "nodata" and tag == "all" and seq in ((0, 1, 0), (0, 0, 1), (1, 0, 1))):
+                        continue    # three writes cost ~25 min each: three interleavings per template
                     add(t, cfg, nsets, tag, seq, mid, sk)
     return obs
 
